@@ -506,6 +506,30 @@ fn check_ovo<L: Lab>(c: &mut Case, pred: &[L], truth: &[L]) -> Chk {
     }
     need!(ge == ee, "C05/split_one_vs_one/cells", {"case": ctxf(), "got": got, "expected": exp});
     c.count_n("one-vs-one-matrices", exp.len() as u64);
+    // every pairwise part is a confusion matrix of its own: its scores and its one-vs-all split
+    // follow from its own four cells
+    for (m, cells) in ovo.iter().zip(got.iter()) {
+        let db = derived_from_binary_cells(cells[0], cells[1], cells[2], cells[3]);
+        check_derived(c, m, &db, "one-vs-one part", &ctxf)?;
+        let parts = match guarded(|| m.split_one_vs_all()) {
+            Ok(p) => p,
+            Err(p) => fail!("C05/split_one_vs_all/panic", {"case": ctxf(), "of": "one-vs-one part", "panic": p}),
+        };
+        need!(parts.len() == 2, "C05/split_one_vs_all/count", {"case": ctxf(), "of": "one-vs-one part", "got": parts.len(), "expected": 2});
+        // for a 2x2 matrix [[a,b],[c,d]] the two indicator matrices are [[a,b],[c,d]] and [[d,c],[b,a]]
+        let want = [[cells[0], cells[1], cells[2], cells[3]], [cells[3], cells[2], cells[1], cells[0]]];
+        for (part, w) in parts.iter().zip(want.iter()) {
+            match parse_cm(&format!("{part:?}")) {
+                Ok(p) if p.cells.len() == 2 => {
+                    let g = [p.cells[0][0], p.cells[0][1], p.cells[1][0], p.cells[1][1]];
+                    need!(&g == w, "C05/split_one_vs_all/cells", {"case": ctxf(), "of": "one-vs-one part", "got": g, "expected": w});
+                }
+                _ => fail!("C05/split_one_vs_all/malformed", {"case": ctxf(), "of": "one-vs-one part"}),
+            }
+            let dd = derived_from_binary_cells(w[0], w[1], w[2], w[3]);
+            check_derived(c, part, &dd, "one-vs-all split of a one-vs-one part", &ctxf)?;
+        }
+    }
     Ok(())
 }
 
@@ -720,11 +744,13 @@ fn gen_scores(rng: &mut Rng, n: usize) -> (Vec<f32>, Vec<bool>, String) {
             *v = if hi { 1.0 - k as f32 * f32::EPSILON / 2.0 } else { k as f32 * 1e-8 };
         }
     }
-    // boundary scores
+    // boundary scores (a negative zero is a valid probability equal to 0)
     for v in s.iter_mut() {
         let u: f64 = rng.gen();
-        if u < 0.08 {
+        if u < 0.06 {
             *v = 0.0;
+        } else if u < 0.08 {
+            *v = -0.0;
         } else if u < 0.16 {
             *v = 1.0;
         }
